@@ -148,6 +148,8 @@ def _dtypes_for(strategy, nc, rng):
         pool = _STRS
     elif strategy == 'dt':
         pool = [rng.choice(_DTS)]
+    elif strategy == 'dt_units':
+        pool = ['M8[D]', 'M8[s]']  # one kind, two units: every column keeps its own unit whatever the frame remembers about its rows
     elif strategy == 'obj_num':
         pool = ['object', 'object', 'float64', 'int64']
     elif strategy == 'small_mix':
@@ -162,7 +164,7 @@ def _dtypes_for(strategy, nc, rng):
 
 
 _STRATEGIES = ['homog_small', 'homog_small', 'homog', 'numeric', 'numeric', 'real', 'real', 'bool_num', 'str', 'dt', 'obj_num',
-               'small_mix', 'any']
+               'small_mix', 'any', 'dt_units']
 
 
 def _tame_prod(cells, axis, rng):
@@ -308,6 +310,27 @@ def probes(ctx):
 
 # --------------------------------------------------------------------------------------
 # helpers
+
+def _grown_frame(spec):
+    import static_frame as sf
+    try:
+        idx = L.build_index(spec.row_kind, spec.rows)
+        first = spec.cols[0] if spec.col_kind != 'auto' else 0
+        fg = sf.FrameGO.from_items([(first, spec.col_array(0))], index=idx, name=spec.name)
+        for j in range(1, len(spec.cols)):
+            fg[spec.cols[j] if spec.col_kind != 'auto' else j] = spec.col_array(j)
+        return fg
+    except Exception:
+        return None
+
+
+def _outcome_obs(st, res):
+    if st != 'ok':
+        return ('exc', type(res).__name__)
+    if hasattr(res, 'values') and hasattr(res, 'index'):
+        return ('series', [cs(x) for x in canon.index_labels(res.index)], canon.arr_cells(np.asarray(res.values)))
+    return ('value', cs(res))
+
 
 def _call(fn):
     try:
@@ -777,6 +800,22 @@ def check(case, ctx):
 
         st, res = _call(lambda: getattr(f, fn)(**_kw(op, True)))
         kinds_seen[F.layout_name(lay)] = st if st == 'ok' else 'exc:' + type(res).__name__
+
+        if nc >= 2 and all(b - a == 1 and not t for a, b, t in lay) and not str(spec.col_kind).startswith('hier'):
+            # the same columns as a grow-only frame that received them one at a time: same blocks, so the same reduction
+            # (what a frame caches while it grows, e.g. its row dtype, must describe the columns it now holds)
+            fg = _grown_frame(spec)
+            if fg is not None:
+                ctx.tally('layout', 'grown_one_column_at_a_time')
+                st2, res2 = _call(lambda: getattr(fg, fn)(**_kw(op, True)))
+                o1, o2 = _outcome_obs(st, res), _outcome_obs(st2, res2)
+                if o1 != o2:
+                    try:
+                        widened = fg.values.dtype.kind == 'O' and f.values.dtype.kind != 'O'
+                    except Exception:
+                        widened = None
+                    violate('grown_frame_reduces_differently', dict(base, layout='grown', grown_rows_consolidate_to_object=widened),
+                            built=canon.brief(o1, 400), grown=canon.brief(o2, 400))
 
         if st == 'exc':
             ename = type(res).__name__
